@@ -21,6 +21,24 @@ pub enum ResponseOutputFormat {
     },
 }
 
+/// renders a JSON value as one CSV cell. text is written as a quoted cell holding the
+/// JSON-escaped string (so line breaks stay escaped and a row stays on one line), any other
+/// value as its JSON text. quotes inside a quoted cell are doubled, so that commas and
+/// quotes in a value cannot split the row.
+fn csv_cell(cell: &serde_json::Value) -> String {
+    let text = cell.to_string();
+    match cell {
+        serde_json::Value::String(_) => {
+            let inner = &text[1..text.len() - 1];
+            format!("\"{}\"", inner.replace('"', "\"\""))
+        }
+        _ if text.contains(',') || text.contains('"') => {
+            format!("\"{}\"", text.replace('"', "\"\""))
+        }
+        _ => text,
+    }
+}
+
 impl ResponseOutputFormat {
     pub fn initial_file_contents(&self) -> Option<String> {
         match self {
@@ -65,7 +83,7 @@ impl ResponseOutputFormat {
                         .iter()
                         .sorted_by_key(|(k, _)| *k)
                         .map(|(k, v)| match v.apply_mapping(response) {
-                            Ok(cell) => cell.to_string(),
+                            Ok(cell) => csv_cell(&cell),
                             Err(msg) => {
                                 errors.insert(k.clone(), msg);
                                 String::from("")
@@ -77,7 +95,7 @@ impl ResponseOutputFormat {
                         .iter()
                         .rev()
                         .map(|(k, v)| match v.apply_mapping(response) {
-                            Ok(cell) => cell.to_string(),
+                            Ok(cell) => csv_cell(&cell),
                             Err(msg) => {
                                 errors.insert(k.clone(), msg);
                                 String::from("")
